@@ -684,7 +684,12 @@ func (r *Raft) AddServer(
 	r.appendConfiguration(&configuration)
 
 	r.configuration = &configuration
-	r.followers[id] = &follower{nextIndex: 1}
+
+	// A node that is a member already keeps its replication state: it would otherwise be sent
+	// everything again, and a promotion could not be committed until that is done.
+	if _, ok := r.followers[id]; !ok {
+		r.followers[id] = &follower{nextIndex: 1}
+	}
 	r.configurationResponseCh = configurationFuture.responseCh
 
 	r.sendAppendEntriesToPeers()
